@@ -9,6 +9,8 @@
 //    fitT+R        the other order, for forward mobilizers whose translation fit does not consult the rotation
 //    fitR-keeps-p / fitT-keeps-R   independent coordinates (Cylinder, Planar, Bushing, Free, FreeLine, forward): a partial fit
 //                  reaches its target and leaves the other part of the pose where it was
+//    fitR-reaches-R / fitW-reaches-w   every type, forward and Reverse: the rotation (angular velocity) fit alone reproduces the
+//                  requested rotation (angular velocity), which depend on the rotational coordinates (speeds) only
 //    fitW+LV / fitLV+W   setUToFitAngularVelocity(w of V) and setUToFitLinearVelocity(v of V), either order, reproduce u
 //                  (reversed mobilizers only when w_FM = 0: the linear wrapper assumes that; Ellipsoid W+LV only for a sphere)
 // usage: C05_search <seed> <ncases>; prints "FAIL <predicate>-<Type> err=... case..." lines and "DONE <evaluations> fails=<n>".
@@ -114,6 +116,10 @@ int main(int argc, char** argv) {
           State z = s2; z.updQ() = q2; const Transform X0 = pose(z);         // pose of the starting coordinates
           { State a = s2; a.updQ() = q2; mb.setQToFitRotation(a, X.R()); if (type != 12) mb.setQToFitTranslation(a, X.p());
             const Transform Xa = pose(a); chk("fitR+T", type, xdiff(Xa.R().asMat33(), Xa.p(), X), 1e-9, info); }
+          { State a = s2; a.updQ() = q2; mb.setQToFitRotation(a, X.R()); const Transform Xa = pose(a);
+            chk("fitR-reaches-R", type, (Xa.R().asMat33() - X.R().asMat33()).norm(), 1e-9, info);
+            State c = s; c.updU() = u2; mb.setUToFitAngularVelocity(c, V[0]); sys.realize(c, Stage::Velocity);
+            chk("fitW-reaches-w", type, (mb.getMobilizerVelocity(c)[0] - V[0]).norm(), 1e-9, info); }
           const bool indep = !rev && (type == 3 || type == 5 || type == 7 || type == 9 || type == 14);
           const bool trOK = !rev && (indep || type == 0 || type == 1 || type == 2 || type == 6 || type == 8 || type == 10 || type == 11 || type == 13 || type == 16);
           if (trOK) { State a = s2; a.updQ() = q2; mb.setQToFitTranslation(a, X.p()); mb.setQToFitRotation(a, X.R());
